@@ -175,6 +175,14 @@ def oracle_origins(case, m, r, out):
             leads = None if anchor is None else anchor[0]
 
 
+def loc_key(loc):
+    """what a location *is*, independent of how its load identifier is spelled: a block is (file, sheet, row)"""
+    from pdtable.table_origin import LocationBlock
+    if isinstance(loc, LocationBlock):
+        return (loc.file.load_identifier, loc.sheet_name, loc.row)
+    return (loc.load_identifier,)
+
+
 def oracle_forest(case, m, tables, roots, out):
     """make_location_trees: a forest over the tables"""
     seen, leaves, order = {}, [], []
@@ -229,9 +237,29 @@ def oracle_forest(case, m, tables, roots, out):
                           "parent": None if n.parent is None else n.parent.location.load_identifier},
                          src.load_identifier, key="forest:parent")
                 return
+            if loc_key(n.parent.location) != loc_key(src):
+                out.fail("a node sits beneath another location than its load_specification.source (file, sheet, "
+                         "row of the including directive)", case,
+                         {"node": n.location.load_identifier, "parent": list(loc_key(n.parent.location))},
+                         list(loc_key(src)), key="forest:parent_location")
+                return
     ids = [n.location.load_identifier for n in seen.values() if n.table is None]
     if len(ids) != len(set(ids)):
         out.fail("two tree nodes share a load identifier", case, sorted(ids), None, key="forest:dup_node")
+        return
+    # one node per location: every (file, sheet, row) / file / folder that occurs as the file of a table or as a
+    # source along a table's load history has its own node
+    want = set()
+    for t in tables:
+        il = t.metadata.origin.input_location
+        want.add(loc_key(il.file))
+        for li in il.load_specification.load_history():
+            if li.source is not None:
+                want.add(loc_key(li.source))
+    have = [loc_key(n.location) for n in seen.values() if n.table is None]
+    if sorted(map(repr, have)) != sorted(map(repr, want)):
+        out.fail("the tree does not have exactly one node per location of the tables' files and load histories",
+                 case, sorted(map(repr, have)), sorted(map(repr, want)), key="forest:node_per_location")
 
 
 # ------------------------------------------------------------------------------------------------ generators
@@ -260,6 +288,18 @@ def gen_cases(tier, seed, search=False):
                               sheet_pattern=crng.choice([None, None, "(in|set)_"]))
         case["gen"] = {"graph": sorted(es), "n": n}
         yield idx, shift_columns(crng, case)
+        idx += 1
+    for k in range(400 if (thorough or search) else 40):
+        crng = make_rng(seed, f"C18:a:{k}")
+        n = crng.choice([3, 4, 5])
+        es = {(0, j) for j in range(1, n)} | {(i, j) for i in range(1, n) for j in range(n) if crng.random() < 0.15}
+        kinds = ["xlsx"] + [crng.choice(["csv", "csv", "xlsx"]) for _ in range(n - 1)]
+        case = c16.build_case(crng, n, es, folders=crng.choice(c16.FOLDER_LAYOUTS[:4]), kinds=kinds,
+                              root_folder=crng.random() < 0.6, roots_mode="file", start_pattern=None,
+                              tracker="collecting", allow_include=True, mem=False, rich=True, sheet_pattern=None,
+                              opts={"aligned_p": 1.0, "min_sheets": crng.choice([2, 3]), "split_groups": True})
+        case["gen"] = {"aligned": True}
+        yield idx, case
         idx += 1
     n_rand = 3500 if (thorough or search) else 330
     for k in range(n_rand):
@@ -342,7 +382,11 @@ def run(tier, seed, model_ok, translator, search=False):
             if res["ntables"]:
                 out.nontrivial.add(hash(repr(case["files"]) + repr(case["roots"])))
             out.count("tables_yielded", res["ntables"])
-            out.count("cases:" + ("graph" if "graph" in case["gen"] else "random"))
+            out.count("cases:" + ("graph" if "graph" in case["gen"] else "aligned" if "aligned" in case["gen"]
+                                  else "random"))
+            al = case.get("aligned_includes", [])
+            if any(a[0] == b[0] and a[1] != b[1] and a[2] == b[2] for a in al for b in al):
+                out.count("cases_with_include_directives_on_the_same_row_of_two_sheets")
             st = res["impl"]["status"]
             out.count("status:" + (st if isinstance(st, str) else st["exc"]))
             depth = max([len(o["history"]) for o in res["impl"]["out"] if o["history"]] or [0])
